@@ -568,6 +568,15 @@ func (a *analysis) oracleC05() verdict {
 		}
 		prev = ids
 	}
+	for bi, spec := range sc.Bars {
+		if p := spec.After; p >= 0 && a.rr.bar(bi) != nil && a.rr.bar(p) != nil {
+			for fi, f := range a.frames {
+				if f.find(bi) != nil && f.find(p) != nil {
+					return a.fv("waiting-bar-shown", "frame %d shows bar %d although it is left waiting behind bar %d, which the same frame shows", fi, bi, p)
+				}
+			}
+		}
+	}
 	clipped := a.clippedPossible()
 	for bi := range sc.Bars {
 		if a.rr.bar(bi) == nil {
@@ -926,6 +935,15 @@ type writeRec struct {
 }
 
 func (a *analysis) oracleC13() verdict {
+	if a.rr.stuckKind == "deadlock" {
+		for _, o := range a.hist() {
+			if o.Op.K == "write" && o.Ret == 0 && !o.Skipped {
+				v := violated("write-never-returns", "certified deadlock with a Progress.Write (invoked at t=%d, Wait returned at t=%d) that never returned", o.Inv, a.rr.tWaitRet.Load())
+				v.Witness = a.rr.stuckDump
+				return v
+			}
+		}
+	}
 	if v := a.framesUsable(); v != nil {
 		return *v
 	}
